@@ -59,7 +59,7 @@ def ladder_decl(rng, ty):
     shapes = [[{"r": "bounds", "start": None, "end": c[0], "incl": True}],
               [{"r": "bounds", "start": c[0] + gap, "end": c[1], "incl": False}],
               [{"r": "bounds", "start": c[1], "end": c[2], "incl": True}],
-              [{"r": "exact", "v": c[3]}, {"r": "bounds", "start": c[4], "end": c[5], "incl": True}],
+              [{"r": "exact", "v": c[3]}, {"r": "bounds", "start": c[4], "end": c[5], "incl": True}, {"r": "exact", "v": c[5] + gap}],
               [{"r": "bounds", "start": c[6], "end": c[7], "incl": False}],
               [{"r": "bounds", "start": c[8], "end": None, "incl": False}]]
     if rng.random() < 0.5:
@@ -75,6 +75,10 @@ def ladder_decl(rng, ty):
         if rty == "i8":
             shapes[0][0]["v"] = max(shapes[0][0]["v"], -128)
     brs = [{"specs": sp, "segs": branch_segs(i)} for i, sp in enumerate(shapes)]
+    for br in brs:
+        if len(br["specs"]) >= 3:
+            # written as a list whose second element is a `|` string: ["..", c3, "c4..=c5 | x"]
+            br["style"], br["mixed"] = "seq", True
     brs.append({"specs": None, "fb": pick(rng, ["_", ".."]), "segs": branch_segs(len(brs))})
     return {"k": "range", "ty": ty, "branches": brs}
 
